@@ -157,7 +157,7 @@ def check_property(prop, tier, seed, only=None):
     groups = {}
     for h in hs:
         groups.setdefault((0 if h.required else 1,) + h.group(), []).append(h)
-    budget = int(os.environ.get("GV_BUDGET_S", "840" if tier == "quick" else "3500"))
+    budget = int(os.environ.get("GV_BUDGET_S", "1200" if tier == "quick" else "3500"))
     for (phase, pkg, feats), ghs in sorted(groups.items()):
         if phase == 1 and budget - int(time.time() - t0) < 120:
             for h in ghs:
